@@ -165,3 +165,102 @@ func vh_C01_text() {
 	vAssert(!panicked, "no-panic-escapes-evalstring")
 	vReach("text-evaluated")
 }
+
+// vh_C01_infix: every infix block of up to 3 (thorough: 4) tokens over a
+// vocabulary of keywords, operators, operands, separators and nested blocks
+// goes through infix expansion, Generate and Run in the standard setup.
+func vh_C01_infix() {
+	vFormatOpaque(true)
+	vBudgetOK()
+	env := vStdEnvs(1)[0]
+	s := func(n string) Sexp { return env.MakeSymbol(n) }
+	if _, err, p := vEval(env, vL(s("def"), s("a"), vI(5))); err != nil || p {
+		vAssert(false, "infix-setup")
+		return
+	}
+	if _, err, p := vEval(env, vL(s("def"), s("h"), vL(s("hash"), vL(s("quote"), s("k")), vI(1)))); err != nil || p {
+		vAssert(false, "infix-setup")
+		return
+	}
+	label := env.MakeSymbol("top")
+	label.colonTail = true
+	tok := func() Sexp {
+		switch vChoice("tok", 24) {
+		case 0:
+			return s("for")
+		case 1:
+			return s("range")
+		case 2:
+			return s("if")
+		case 3:
+			return s("else")
+		case 4:
+			return s("break")
+		case 5:
+			return s("continue")
+		case 6:
+			return s("a")
+		case 7:
+			return s("h")
+		case 8:
+			return s("=")
+		case 9:
+			return s(":=")
+		case 10:
+			return s("+=")
+		case 11:
+			return s("++")
+		case 12:
+			return s("+")
+		case 13:
+			return s("*")
+		case 14:
+			return s("and")
+		case 15:
+			return s("not")
+		case 16:
+			return &SexpComma{}
+		case 17:
+			return &SexpSemicolon{}
+		case 18:
+			return &SexpInt{Val: vInt64("i")}
+		case 19:
+			return vA(env, s("a"), vI(1))
+		case 20:
+			return vL(s("infix"), vA(env))
+		case 21:
+			return vL(s("infix"), vA(env, s("a")))
+		case 22:
+			return label
+		default:
+			return s("k")
+		}
+	}
+	max := 3
+	if vTier() == 1 {
+		max = 4
+	}
+	var toks []Sexp
+	if vChoice("mode", 2) == 0 {
+		// free token sequences
+		n := 1 + vChoice("ntok", max)
+		for i := 0; i < n; i++ {
+			toks = append(toks, tok())
+		}
+	} else {
+		// go-style for statements: for <1..3 header tokens> { body }
+		toks = append(toks, s("for"))
+		n := 1 + vChoice("nheader", 3)
+		for i := 0; i < n; i++ {
+			toks = append(toks, tok())
+		}
+		toks = append(toks, vL(s("infix"), vA(env, s("a"))))
+	}
+	vSetStepBudget(300000)
+	_, _, panicked := vEval(env, vL(s("infix"), vA(env, toks...)))
+	vAssert(!panicked, "no-panic-escapes-infix-eval")
+	// the same block through the expansion entry point
+	_, _, panicked = vEval(env, vL(s("infixExpand"), vL(s("infix"), vA(env, toks...))))
+	vAssert(!panicked, "no-panic-escapes-infix-expand")
+	vReach("infix")
+}
